@@ -3368,7 +3368,7 @@ impl Interpreter {
         };
 
         // Extract value and done
-        let (value, done) = self.extract_iterator_result(&actual_result);
+        let (value, done) = self.extract_iterator_result(&actual_result)?;
 
         if done {
             // Iterator is immediately done, resume generator with return value
@@ -3386,26 +3386,40 @@ impl Interpreter {
         }
     }
 
-    /// Extract value and done from an iterator result object
-    fn extract_iterator_result(&mut self, result: &JsValue) -> (JsValue, bool) {
-        let JsValue::Object(obj) = result else {
-            return (JsValue::Undefined, true);
-        };
-
-        let value_key = self.property_key("value");
+    /// IteratorComplete: ToBoolean(Get(result, "done")). An ordinary Get, so an
+    /// accessor or a proxy answers it like any other property read.
+    pub(crate) fn iterator_done(&mut self, result: &Gc<JsObject>) -> Result<bool, JsError> {
         let done_key = self.property_key("done");
+        let Guarded { value, .. } = builtins::proxy::proxy_get(
+            self,
+            result.cheap_clone(),
+            done_key,
+            JsValue::Object(result.cheap_clone()),
+        )?;
+        Ok(value.to_boolean())
+    }
 
-        let value = obj
-            .borrow()
-            .get_property(&value_key)
-            .unwrap_or(JsValue::Undefined);
+    /// IteratorValue: Get(result, "value")
+    pub(crate) fn iterator_value(&mut self, result: &Gc<JsObject>) -> Result<Guarded, JsError> {
+        let value_key = self.property_key("value");
+        builtins::proxy::proxy_get(
+            self,
+            result.cheap_clone(),
+            value_key,
+            JsValue::Object(result.cheap_clone()),
+        )
+    }
 
-        let done = match obj.borrow().get_property(&done_key) {
-            Some(JsValue::Boolean(b)) => b,
-            _ => false,
+    /// Extract value and done from an iterator result object
+    fn extract_iterator_result(&mut self, result: &JsValue) -> Result<(JsValue, bool), JsError> {
+        let JsValue::Object(obj) = result else {
+            return Ok((JsValue::Undefined, true));
         };
 
-        (value, done)
+        let done = self.iterator_done(obj)?;
+        let Guarded { value, .. } = self.iterator_value(obj)?;
+
+        Ok((value, done))
     }
 
     // ═══════════════════════════════════════════════════════════════════════════
@@ -4476,27 +4490,15 @@ impl Interpreter {
             };
 
             // Check done property
-            let done = {
-                let result_ref = result_obj.borrow();
-                let done_key = PropertyKey::String(self.intern("done"));
-                result_ref
-                    .get_property(&done_key)
-                    .map(|v| v.to_boolean())
-                    .unwrap_or(false)
-            };
-
-            if done {
+            if self.iterator_done(&result_obj)? {
                 break;
             }
 
             // Get value property
-            let iter_value = {
-                let result_ref = result_obj.borrow();
-                let value_key = PropertyKey::String(self.intern("value"));
-                result_ref
-                    .get_property(&value_key)
-                    .unwrap_or(JsValue::Undefined)
-            };
+            let Guarded {
+                value: iter_value,
+                guard: _value_guard,
+            } = self.iterator_value(&result_obj)?;
 
             iter_value.guard_by(&values_guard);
             values.push(iter_value);
